@@ -410,7 +410,11 @@ Hypothesis `cfg.Distinct`: the anonymous topic `<tm>:<task>:<node>` is not also 
 over every node configuration (with/without handlers, with/without `.topic`, `stateChangesOnly`, `noRecoveries`),
 every sequence of points and graceful task restarts. These are `_partial` with respect to the property's
 quantifier: crash points INSIDE a point (between its sub-steps) are excluded by the explicit hypothesis
-`(nplanAt cfg ops k).length ≤ j`; there the two counterexamples above apply. -/
+`(nplanAt cfg ops k).length ≤ j`. Inside a point "the same final state as the uninterrupted run of ALL points" is
+simply false (the point in flight is lost or half recorded); what holds there, for a node with both topics and
+EVERY `j`, is `node_handlers_not_misled_except_characterised` above. For a node with ONE topic a crash inside a
+point is the service-level window (`handlers_not_misled_silent_aware`, counterexample
+`node_recovery_never_announced`); no node-level characterisation is proved for it. -/
 
 /-- **No reconciliation without a crash**: in an uninterrupted run (graceful task restarts included) every
 `restoreEvent` finds the anonymous and the named topic in agreement — `UpdateEvent` is never called. -/
